@@ -3054,4 +3054,247 @@ theorem replaceSpec_sorted (orig : List Row) (hso : orig.Pairwise (fun a b => a.
         rw [h3]; exact hmono ja j a3 h2 (by omega)
 
 
+
+/-! ## translation invariance (epoch-scale timestamps) -/
+
+def Hit.shift (T : Int) (h : Hit) : Hit := { h with time := h.time + T }
+def Cand.shift (T : Int) (c : Cand) : Cand :=
+  { c with time := c.time + T, endt := c.endt + T, members := c.members.map (Hit.shift T) }
+def Peak.shift (T : Int) (p : Peak) : Peak := { p with time := p.time + T }
+
+theorem Hit.shift_endt (T : Int) (h : Hit) : (h.shift T).endt = h.endt + T := by
+  simp only [Hit.shift, Hit.endt]; omega
+
+theorem step_shift (P : FPParams) (toPe : List Rat) (nCh : Nat) (T : Int) (c : Option Cand) (h : Hit) :
+    Cand.step P toPe nCh (c.map (Cand.shift T)) (h.shift T) = (Cand.step P toPe nCh c h).shift T := by
+  cases c with
+  | none =>
+    simp only [Cand.step, Cand.enter, Cand.add, Option.map_none, Cand.shift, Hit.shift_endt]
+    simp only [Hit.shift, List.map_append, List.map_cons, List.map_nil, List.nil_append]
+    congr 1 <;> omega
+  | some c =>
+    simp only [Cand.step, Cand.enter, Cand.add, Option.map_some, Cand.shift, Hit.shift_endt]
+    simp only [Hit.shift, List.map_append, List.map_cons, List.map_nil]
+    congr 1 <;> omega
+
+theorem isFar_shift (P : FPParams) (T : Int) (c : Cand) (nx : Hit) :
+    isFar P (c.shift T) (nx.shift T) = isFar P c nx := by
+  simp only [isFar, Cand.shift, Hit.shift]; congr 1; apply propext; constructor <;> intro h <;> omega
+
+theorem tooLong_shift (P : FPParams) (T : Int) (c : Cand) (nx : Hit) :
+    tooLong P (c.shift T) (nx.shift T) = tooLong P c nx := by
+  simp only [tooLong, Cand.shift, Hit.shift]; congr 1; apply propext; constructor <;> intro h <;> omega
+
+theorem scanHits_shift (P : FPParams) (toPe : List Rat) (nCh : Nat) (T : Int) :
+    ∀ (hits : List Hit) (c : Option Cand),
+      scanHits P toPe nCh (c.map (Cand.shift T)) (hits.map (Hit.shift T)) = (scanHits P toPe nCh c hits).map (Cand.shift T) := by
+  intro hits
+  induction hits with
+  | nil => intro c; simp [scanHits]
+  | cons h rest ih =>
+    intro c
+    rw [List.map_cons, scanHits_cons, scanHits_cons, step_shift]
+    cases rest with
+    | nil => simp
+    | cons nx r =>
+      simp only [List.map_cons, isFar_shift, tooLong_shift]
+      split
+      · have := ih none
+        simp only [Option.map_none, List.map_cons] at this
+        rw [this]; simp
+      · have := ih (some (Cand.step P toPe nCh c h))
+        simp only [Option.map_some, List.map_cons] at this
+        exact this
+
+theorem finish_shift (P : FPParams) (nS : Nat) (T : Int) (c : Cand) :
+    (c.shift T).finish P nS = (c.finish P nS).map (Option.map (Peak.shift T)) := by
+  unfold Cand.finish
+  simp only [Cand.shift]
+  have e : c.endt + T - (c.time + T) + P.right = c.endt - c.time + P.right := by omega
+  simp only [e]
+  split
+  · rfl
+  · split
+    · rfl
+    · split
+      · rfl
+      · split <;> rfl
+
+theorem finishAll_shift (P : FPParams) (nS : Nat) (T : Int) : ∀ (cs : List Cand),
+    finishAll P nS (cs.map (Cand.shift T)) = (finishAll P nS cs).map (List.map (Peak.shift T)) := by
+  intro cs
+  induction cs with
+  | nil => rfl
+  | cons c cs ih =>
+    simp only [List.map_cons, finishAll, finish_shift, ih]
+    cases hc : c.finish P nS with
+    | error e => rfl
+    | ok o =>
+      cases o with
+      | none => simp [Except.map]
+      | some p =>
+        cases hf : finishAll P nS cs with
+        | error e => rfl
+        | ok ps => simp [Except.map]
+
+/-- **`find_peaks` is translation invariant**: moving all hit times by `T` moves all peak times by `T` and changes
+nothing else (so results at acquisition-epoch times ≈ 1.7e18 ns are those at small times, shifted) -/
+theorem findPeaks_shift (P : FPParams) (toPe : List Rat) (nCh nS : Nat) (T : Int) (hits : List Hit) :
+    findPeaks P toPe nCh nS (hits.map (Hit.shift T)) = (findPeaks P toPe nCh nS hits).map (List.map (Peak.shift T)) := by
+  unfold findPeaks
+  have ha : fpAsserts P toPe (hits.map (Hit.shift T)) = fpAsserts P toPe hits := by
+    cases hits with
+    | nil => rfl
+    | cons h0 r => simp [fpAsserts, Hit.shift, List.all_map, Function.comp_def]; rfl
+  have he : (hits.map (Hit.shift T)).isEmpty = hits.isEmpty := by cases hits <;> rfl
+  rw [ha, he]
+  split
+  · rfl
+  · split
+    · rfl
+    · have := scanHits_shift P toPe nCh T hits none
+      simp only [Option.map_none] at this
+      rw [this, finishAll_shift]
+
+
+theorem Peak.shift_endt (T : Int) (p : Peak) : (p.shift T).endt = p.endt + T := by
+  simp only [Peak.shift, Peak.endt]; omega
+
+theorem gapsBetween_shift (T : Int) : ∀ (peaks : List Peak), gapsBetween (peaks.map (Peak.shift T)) = gapsBetween peaks
+  | [] => rfl
+  | [_] => rfl
+  | a :: b :: rest => by
+    simp only [List.map_cons, gapsBetween]
+    have := gapsBetween_shift T (b :: rest)
+    simp only [List.map_cons] at this
+    rw [this, Peak.shift_endt]
+    congr 1
+    simp only [Peak.shift]; omega
+
+theorem gcdOfDts_shift (T : Int) (old : List Peak) : gcdOfDts (old.map (Peak.shift T)) = gcdOfDts old := by
+  cases old with
+  | nil => rfl
+  | cons p ps =>
+    simp only [List.map_cons, gcdOfDts, List.foldl_map]
+    rfl
+
+theorem mergeLoop_shift (t0 common T : Int) : ∀ (old : List Peak) (acc : MergeAcc),
+    mergeLoop (t0 + T) common (old.map (Peak.shift T)) acc = mergeLoop t0 common old acc := by
+  intro old
+  induction old with
+  | nil => intro acc; rfl
+  | cons p ps ih =>
+    intro acc
+    simp only [List.map_cons]
+    unfold mergeLoop
+    have e : (p.shift T).time - (t0 + T) = p.time - t0 := by simp only [Peak.shift]; omega
+    simp only [e]
+    simp only [Peak.shift, Peak.wave, ih]
+
+theorem slice_map {α β} (f : α → β) (l : List α) (a b : Nat) : slice (l.map f) a b = (slice l a b).map f := by
+  simp [slice, List.map_drop, List.map_take]
+
+theorem selectOld_shift (T : Int) (peaks : List Peak) (merged : Option (List Bool)) (s e : Nat) :
+    selectOld (peaks.map (Peak.shift T)) merged s e = (selectOld peaks merged s e).map (List.map (Peak.shift T)) := by
+  unfold selectOld
+  simp only [slice_map]
+  cases merged with
+  | none => rfl
+  | some m =>
+    simp only []
+    split
+    · rfl
+    · simp only [Except.map]
+      congr 1
+      generalize slice peaks s e = l
+      generalize slice m s e = bs
+      induction l generalizing bs with
+      | nil => simp
+      | cons x xs ih =>
+        cases bs with
+        | nil => simp
+        | cons b bs =>
+          simp only [List.map_cons, List.zip_cons_cons, List.filter_cons]
+          cases b <;> simp [ih bs]
+
+theorem mergeOne_shift (nCh nS : Nat) (T : Int) (old : List Peak) :
+    mergeOne nCh nS (old.map (Peak.shift T)) = (mergeOne nCh nS old).map (fun qe => (qe.1.shift T, qe.2 + T)) := by
+  unfold mergeOne
+  cases old with
+  | nil => rfl
+  | cons first rest =>
+    have hl : ((first :: rest).map (Peak.shift T)).getLast? = ((first :: rest).getLast?).map (Peak.shift T) := by
+      rw [List.getLast?_map]
+    rw [hl]
+    cases hlast : (first :: rest).getLast? with
+    | none => simp [List.getLast?_eq_none_iff] at hlast
+    | some last =>
+      simp only [List.map_cons, Option.map_some]
+      have hg := gcdOfDts_shift T (first :: rest)
+      simp only [List.map_cons] at hg
+      rw [hg]
+      split
+      · rfl
+      · have e' : last.endt + T - (first.time + T) = last.endt - first.time := by omega
+        have ht : (first.shift T).time = first.time + T := rfl
+        have hm := mergeLoop_shift first.time (gcdOfDts (first :: rest)) T (first :: rest)
+        simp only [List.map_cons] at hm
+        simp only [ht, hm, Peak.shift_endt, e']
+        cases mergeLoop first.time (gcdOfDts (first :: rest)) (first :: rest)
+            { buf := zeros ((last.endt - first.time).fdiv (gcdOfDts (first :: rest))).toNat, area := 0, apc := zeros nCh,
+              nHits := 0 } with
+        | error er => rfl
+        | ok acc =>
+          simp only [Except.map]
+          congr 1
+          unfold storeDownsampled Peak.shift
+          simp only []
+          split <;> rfl
+
+theorem mergeAll_shift (nCh nS : Nat) (T : Int) (peaks : List Peak) (merged : Option (List Bool)) :
+    ∀ (ranges : List (Nat × Nat)),
+      mergeAll nCh nS (peaks.map (Peak.shift T)) merged ranges
+        = (mergeAll nCh nS peaks merged ranges).map (List.map (fun qe => (qe.1.shift T, qe.2 + T))) := by
+  intro ranges
+  induction ranges with
+  | nil => rfl
+  | cons r rest ih =>
+    obtain ⟨s, e⟩ := r
+    simp only [mergeAll, selectOld_shift, ih]
+    cases selectOld peaks merged s e with
+    | error er => rfl
+    | ok old =>
+      simp only [Except.map, mergeOne_shift]
+      cases mergeOne nCh nS old with
+      | error er => rfl
+      | ok qe =>
+        simp only [Except.map]
+        cases mergeAll nCh nS peaks merged rest with
+        | error er => rfl
+        | ok rs => rfl
+
+/-- **`merge_peaks` is translation invariant**: moving all peak times by `T` moves the merged peaks and their
+collected end times by `T` and changes nothing else -/
+theorem mergePeaks_shift (nCh nS : Nat) (T : Int) (peaks : List Peak) (merged : Option (List Bool)) (ranges : List (Nat × Nat)) :
+    mergePeaks nCh nS (peaks.map (Peak.shift T)) merged ranges
+      = (mergePeaks nCh nS peaks merged ranges).map (List.map (fun qe => (qe.1.shift T, qe.2 + T))) := by
+  have hgo : mergePeaks.mergePeaksGo nCh nS (peaks.map (Peak.shift T)) merged ranges
+      = (mergePeaks.mergePeaksGo nCh nS peaks merged ranges).map (List.map (fun qe => (qe.1.shift T, qe.2 + T))) := by
+    unfold mergePeaks.mergePeaksGo
+    simp only [gapsBetween_shift]
+    split
+    · rfl
+    · split
+      · rfl
+      · exact mergeAll_shift nCh nS T peaks merged ranges
+  unfold mergePeaks
+  cases merged with
+  | none => exact hgo
+  | some m =>
+    simp only [List.length_map]
+    split
+    · rfl
+    · exact hgo
+
+
 end Strax.Peaks
